@@ -9,6 +9,7 @@ mod adversary;
 mod batch;
 mod props;
 mod puppet;
+mod rsender;
 mod cluster;
 mod entropy;
 mod gen;
